@@ -302,10 +302,12 @@ func chunkPrimOf(r *Run, m *ServerModel, outer *FuncInfo) *chunkPrim {
 		} else {
 			return true
 		}
+		// parameter names as the owner's resolver renders them (a literal's parameters may
+		// shadow the enclosing function's: p#2)
 		var names []string
 		for _, f := range ft.Params.List {
 			for _, nm := range f.Names {
-				names = append(names, nm.Name)
+				names = append(names, m.resolver(cp.owner).nameOf(info.Defs[nm]))
 			}
 		}
 		if len(names) == 2 {
